@@ -220,5 +220,13 @@ def set_get_snr(d, ctx):
     ctx.lib(set_snr, X3, N3, snr, **kw)
     require(np.array_equal(X3, X), 'set_snr-inplace-modified-target', '')
     require_close(N3, N2, 'set_snr-inplace-differs', rtol=1e-12, atol=0)
+    # the current SNR handed over by the caller (keepdims form, as the function
+    # computes it itself) gives the same result
+    cur = ctx.lib(get_snr, X, N, keepdims=True, **kw)
+    X4, N4 = ctx.lib(set_snr, X_in, N_in, snr, np.asarray(cur), inplace=False, **kw)
+    require_close(N4, N2, 'set_snr-with-given-current-snr-differs', rtol=1e-12, atol=0)
+    got4 = ctx.lib(get_snr, X4, N4, **kw)
+    require_close(np.asarray(got4), snr, 'set_snr-then-get_snr', atol=1e-8,
+                  what=f'requested {snr} (current_snr given)')
     ctx.nontrivial(True)
     ctx.label(f'nlead={len(lead)}', f'axis={axis}')
